@@ -314,6 +314,8 @@ def cond(e, env, cx):
         return ("bool", f"(isInfinite {num(e[2], env, cx)})")
     if k == "var" and e[1] in ("true", "false"):
         return ("bool", e[1])
+    if k == "fcall" and e[1] in getattr(cx, "boolfns", {}):
+        return ("bool", f"({cx.boolfns[e[1]]} {' '.join(num(a, env, cx) for a in e[2])})")
     raise TranslateError(f"{cx.fname}: not a condition: {e[0]}")
 
 
@@ -567,6 +569,20 @@ def generate(kin_src, cons_src):
     L.append(translate_body(flat, "compare_poses", "comparePosesSrc",
                             ["translation_distance", "angular_distance", "distance_tolerance", "angular_tolerance"], "Bool",
                             doc="`compare_poses` after the two distances have been computed"))
+    # kinematic_singularity: `Some(Singularity::A)` / `None` read as true / false
+    body, _ = fn_body(kin_src, "kinematic_singularity")
+    flat = " ".join(re.sub(r"//[^\n]*", "", body).split())
+    for a, b in [("let p = &self.parameters;", ""), ("joints[J5]", "joints_J5"), ("p.sign_corrections[J5] as f64", "sign_J5"),
+                 ("p.offsets[J5]", "offset_J5"), ("Some(Singularity::A)", "true"), ("None", "false")]:
+        if a not in flat:
+            raise TranslateError("kinematic_singularity no longer contains: " + a)
+        flat = flat.replace(a, b)
+    cx = Ctx("kinematicSingularitySrc", "0")
+    cx.boolfns = {"is_close_to_multiple_of_pi": "isCloseToMultipleOfPiSrc"}
+    def _none(e):
+        raise TranslateError("kinematic_singularity: falls off the end")
+    term = tr(P(tokenize(flat)).stmts_until_eof(), {"joints_J5": "j.j5", "sign_J5": "p.signs.j5", "offset_J5": "p.offsets.j5"}, cx, _none, 1)
+    L.append("/-- `kinematic_singularity` (`Some(Singularity::A)` = true) -/\ndef kinematicSingularitySrc (p : Params R) (j : J6 R) : Bool :=\n  " + term + "\n")
     # constraints.rs
     L.append(translate_fn(cons_src, "inside_bounds", "insideBoundsSrc", "Bool"))
     body, _ = fn_body(cons_src, "compute_centers")
